@@ -22,10 +22,9 @@ type c18Data struct {
 
 // c18RunMem: step advances the agent one cycle; ctrlState points at its
 // ControlState; inflight reports the number of requests it holds.
-func c18RunMem(step func() bool, top, ctrl messaging.Port, ctrlState *memcontrolprotocol.State, inflight func() int, maxTicks, nData int) {
+func c18RunMem(step func() bool, top, ctrl messaging.Port, ctrlState *memcontrolprotocol.State, inflight func() int, maxTicks, nData, nCtrl int) {
 	verbs := []memcontrolprotocol.Command{memcontrolprotocol.CmdPause, memcontrolprotocol.CmdDrain, memcontrolprotocol.CmdEnable,
 		memcontrolprotocol.CmdReset, memcontrolprotocol.CmdInvalidate, memcontrolprotocol.CmdFlush, memcontrolprotocol.Command(99)}
-	nCtrl := verifrt.Bound("control-requests", 2, 3)
 	type ctl struct {
 		id   uint64
 		verb memcontrolprotocol.Command
